@@ -1369,6 +1369,55 @@ pub fn locate_glyf(d: &[u8], offsets: &[usize], rng: &mut Rng) -> Vec<Field> {
             }
         }
     }
+    // Fan-out chain: consecutive glyphs g, g+1, ... rewritten (in place, loca untouched) as
+    // composites whose every component names the next glyph; the glyph after the chain is left
+    // alone. The nesting stays within the recursion limit (6) while the number of leaf visits
+    // is the product of the component counts - work out of proportion to the bytes involved.
+    {
+        let cap = *rng.pick(&[4usize, 16, 64, 4096]);
+        let max_levels = 2 + rng.usize_below(5);
+        let mut block: Vec<u8> = Vec::new();
+        let mut levels = 0;
+        let mut gi = g;
+        while levels < max_levels && gi + 2 < offsets.len() {
+            let (a, b) = (offsets[gi], offsets[gi + 1]);
+            if b <= a || b > n || b - a < 22 || a != s + block.len() {
+                break;
+            }
+            let k = ((b - a - 10) / 6).min(cap);
+            let mut gl = Vec::with_capacity(b - a);
+            gl.extend_from_slice(&(-1i16).to_be_bytes());
+            gl.extend_from_slice(&d[a + 2..a + 10]);
+            for j in 0..k {
+                let flags: u16 = if j + 1 < k { 0x0022 } else { 0x0002 };
+                gl.extend_from_slice(&flags.to_be_bytes());
+                gl.extend_from_slice(&((gi + 1) as u16).to_be_bytes());
+                gl.extend_from_slice(&[0, 0]);
+            }
+            gl.resize(b - a, 0);
+            block.extend_from_slice(&gl);
+            levels += 1;
+            gi += 1;
+        }
+        if levels >= 2 {
+            fw(&mut out, "glyf.composite.fanoutChain", s, block.clone(), n);
+        }
+        if levels >= 3 {
+            // same chain closed into a cycle that does not pass through the first glyph: the
+            // last level names the second glyph of the chain
+            let last = offsets[g + levels - 1] - s;
+            let mut p = last + 10;
+            while p + 6 <= block.len() {
+                let more = block[p + 1] & 0x20 != 0;
+                block[p + 2..p + 4].copy_from_slice(&((g + 1) as u16).to_be_bytes());
+                p += 6;
+                if !more {
+                    break;
+                }
+            }
+            fw(&mut out, "glyf.composite.cycleBelowRoot", s, block, n);
+        }
+    }
     // name the glyph, so that the generator can aim outline / subset ops at it
     for fld in &mut out {
         fld.name = format!("{}#g{}", fld.name, g);
